@@ -292,6 +292,7 @@ fn main() {
             let mut total = 0usize;
             let mut failures = vec![];
             let mut samples = vec![];
+            let mut workloads: Vec<String> = vec![];
             let t0 = std::time::Instant::now();
             // several workloads (swarm), each explored by a random and a PCT scheduler
             for g in 0..groups {
@@ -299,6 +300,7 @@ fn main() {
                 if samples.len() < 3 {
                     samples.push(serde_json::to_value(&sc).unwrap());
                 }
+                workloads.push(serde_json::to_string(&sc).unwrap());
                 for pct in [false, true] {
                     let mut cfg = Config::new();
                     cfg.failure_persistence = FailurePersistence::File(Some(dir.clone().into()));
@@ -325,7 +327,7 @@ fn main() {
                     break;
                 }
             }
-            let summary = json!({"kind": kind, "seed": seed, "iterations": total, "groups": groups, "wall_s": t0.elapsed().as_secs_f64(), "failures": failures, "samples": samples});
+            let summary = json!({"kind": kind, "seed": seed, "iterations": total, "groups": groups, "wall_s": t0.elapsed().as_secs_f64(), "failures": failures, "samples": samples, "workloads": workloads});
             std::fs::write(&out, serde_json::to_vec(&summary).unwrap()).unwrap();
         }
         "replay" => {
